@@ -13,6 +13,11 @@
        ==> environment op `memberRead` puts the message into the member's `inbox` (the member's
        Read has returned it to that goroutine); the internal op `pump` is the send on readResCh.
    Write / AsUnreliable / NegotiationParams read currentTransportID under m.mu.RLock.
+     - a Write holds m.mu.RLock for as long as the member's Write takes (back-pressure): transportIDLoop
+       cannot apply a selection in the meantime (m.mu.Lock waits for the reader), the selections emitted
+       by the scheduler queue up in the channel pipeline and are applied one by one, in order, once the
+       write has returned  ==> environment ops `writeBegin` (the call entered the member; `hold` = that
+       member) and `writeEnd` (the member's Write returned); `applySel` is disabled while hold # None.
 
    AsCoded = TRUE  models transport.go as written: ids are never validated (NewTransport accepts
                    any InitialTransportID, transportIDLoop stores any id) and a call that looks up
@@ -24,7 +29,8 @@
    Abstractions: write k carries WSize(k) bytes, the k-th message handed out by a member carries
    RSize(k) bytes (distinct powers of two: byte sums identify the set of messages).
    The per-scenario parameters and bounds live in st.b so that one TLC run can cover several
-   member sets / families:  b = [name, M, init, selIds, maxSel, maxW, maxR, maxP, probes, maxRac]. *)
+   member sets / families:  b = [name, M, init, selIds, maxSel, maxW, maxR, maxP, probes, maxRac, hold]
+   (hold = TRUE: the family also issues writes that stay in flight).                               *)
 EXTENDS Integers, Sequences, FiniteSets, FiniteSetsExt, TLC, Json
 
 CONSTANTS Members,   \* universe of member ids, e.g. {"m1","m2","m3"}
@@ -50,6 +56,7 @@ Base(b, c) ==
      fedTo |-> <<>>,       \* fedTo[k] = member that handed out message k
      got |-> <<>>,         \* messages returned by Transport.Read, in order
      closes |-> [m \in Members |-> 0],
+     hold |-> None,        \* member whose Write is in flight (m.mu read-locked), None if no write is in flight
      nprobe |-> 0, rac |-> 0, crashed |-> FALSE,
      last |-> [a |-> "new", ret |-> "ok", k |-> 0]]
 
@@ -68,6 +75,10 @@ Write(st) ==
     THEN [st EXCEPT !.to = Append(@, st.cur), !.wsel = Append(@, st.chosen), !.last = [a |-> "write", ret |-> st.cur, k |-> k]]
     ELSE [st EXCEPT !.to = Append(@, None), !.wsel = Append(@, st.chosen), !.crashed = TRUE,
                     !.last = [a |-> "write", ret |-> "panic", k |-> k]]
+
+\* a Write that blocks inside the member (the member applies back-pressure) and its return
+WriteBegin(st) == LET w == Write(st) IN [w EXCEPT !.hold = IF st.cur \in st.b.M THEN st.cur ELSE None, !.last.a = "writeBegin"]
+WriteEnd(st) == [st EXCEPT !.hold = None, !.last = [a |-> "writeEnd", ret |-> "ok", k |-> Len(st.to)]]
 
 \* AsUnreliable / NegotiationParams: delegate to the current member
 Probe(st, a) ==
@@ -99,12 +110,14 @@ ApplySel(st) ==
 Pump(st, m) == [st EXCEPT !.inbox[m] = Tail(@), !.q = Append(@, Head(st.inbox[m]))]
 
 InternalOps(st) ==
-    (IF st.status = "open" /\ st.pending # <<>> THEN {[a |-> "applySel"]} ELSE {})
+    (IF st.status = "open" /\ st.pending # <<>> /\ st.hold = None THEN {[a |-> "applySel"]} ELSE {})
     \cup { [a |-> "pump", src |-> m] : m \in { x \in Members : st.inbox[x] # <<>> } }
 
 Step(st, op) ==
     CASE op.a = "select"     -> Select(st, op.id)
       [] op.a = "write"      -> Write(st)
+      [] op.a = "writeBegin" -> WriteBegin(st)
+      [] op.a = "writeEnd"   -> WriteEnd(st)
       [] op.a = "memberRead" -> MemberRead(st, op.src)
       [] op.a = "read"       -> IF st.status = "closed" /\ (st.q = <<>> \/ "mode" \notin DOMAIN op) THEN ReadClosed(st) ELSE ReadMsg(st)
       [] op.a = "close"      -> Close(st)
@@ -115,7 +128,7 @@ Step(st, op) ==
 \* quiescent state: every pending selection applied, every inbox pumped (member order)
 RECURSIVE Settle(_)
 Settle(st) ==
-    IF st.status = "open" /\ st.pending # <<>> THEN Settle(ApplySel(st))
+    IF st.status = "open" /\ st.pending # <<>> /\ st.hold = None THEN Settle(ApplySel(st))
     ELSE IF \E m \in Members : st.inbox[m] # <<>>
          THEN Settle(Pump(st, CHOOSE m \in Members : st.inbox[m] # <<>> /\ \A x \in Members : st.inbox[x] # <<>> => Head(st.inbox[m]) <= Head(st.inbox[x])))
          ELSE st
@@ -126,8 +139,16 @@ IsEnv(op) == op.a \notin {"applySel", "pump"}
 
 EnabledOps(st) ==
     LET b == st.b  open == st.status = "open" IN
+    IF st.hold # None      \* a write is in flight: the calls that take m.mu are not issued (they would queue behind transportIDLoop's Lock)
+    THEN (IF st.nsel < b.maxSel /\ Len(st.pending) < 2 THEN { [a |-> "select", id |-> i] : i \in b.selIds } ELSE {})
+         \cup (IF Len(st.fedTo) < b.maxR THEN { [a |-> "memberRead", src |-> m, n |-> Len(st.fedTo) + 1] : m \in b.M } ELSE {})
+         \cup (IF st.q # <<>> THEN { [a |-> "read"] } ELSE {})
+         \cup { [a |-> "writeEnd"] }
+         \cup (IF GenCanon THEN {} ELSE InternalOps(st))
+    ELSE
     (IF open /\ st.nsel < b.maxSel THEN { [a |-> "select", id |-> i] : i \in b.selIds } ELSE {})
     \cup (IF open /\ Len(st.to) < b.maxW THEN { [a |-> "write", n |-> Len(st.to) + 1] } ELSE {})
+    \cup (IF open /\ b.hold /\ Len(st.to) < b.maxW THEN { [a |-> "writeBegin", n |-> Len(st.to) + 1] } ELSE {})
     \cup (IF open /\ Len(st.fedTo) < b.maxR THEN { [a |-> "memberRead", src |-> m, n |-> Len(st.fedTo) + 1] : m \in b.M } ELSE {})
     \cup (IF open /\ st.q # <<>> THEN { [a |-> "read"] } ELSE {})
     \cup (IF open /\ st.nprobe < b.maxP THEN { [a |-> p] : p \in b.probes } ELSE {})
